@@ -434,6 +434,20 @@ func runC08(c *CaseCtx) (res CaseResult) {
 		}
 		res.max("max_redefined_inputs", int64(len(decl)))
 		// (ii)
+		if len(decl) > 0 && r.Intn(3) == 0 {
+			// history on the redefined function: a call that lacks one of
+			// the declared inputs fails; that failure must not linger
+			inc, _, _ := redefinedArgs(in.W, rf, 700+call, r)
+			if len(inc) > 1 || len(inc) == len(decl) {
+				inc = inc[1:]
+				oi := DoCall(in.W, rf, inc)
+				res.Evals++
+				if oi.Class == ClsPanic {
+					res.violate("C06", "panic/redefined-call-"+crashKey(oi.Panic), "calling the redefined function without one of its inputs panicked: "+oi.Panic, det(nil))
+				}
+				res.obs("incomplete_redefined_calls_before_the_checked_one", 1)
+			}
+		}
 		args, lbls, ids := redefinedArgs(in.W, rf, call, r)
 		n0 := in.W.NumEvents()
 		o2 := DoCall(in.W, rf, args)
